@@ -175,6 +175,8 @@ impl Part for DropPart {
         p.join_formation = 1;
         p.inject_formation = 3;
         p.suspect_periods = (3, 6);
+        // one lost datagram costs a member at most one refutation, so starting at MAX-1 is still refutable
+        p.inc_cap = u16::MAX - 1;
         let stride = tier.pick(6u32, 1u32);
         (cluster_spec(&p), 0..64u32)
             .prop_map(move |(mut spec, k0)| {
